@@ -67,6 +67,20 @@ class packet_base (object):
         self.parsed = False
         self.raw = None
 
+    # Headers are parsed by nested constructor calls, a few interpreter
+    # frames each.  Nobody nests more than a handful; a frame made of
+    # nothing but headers must not exhaust the interpreter's stack.
+    MAX_NESTING = 32
+
+    def _nesting (self):
+        """ Number of headers above this one (length of the prev chain) """
+        n = 0
+        p = self.prev
+        while p is not None:
+            n += 1
+            p = getattr(p, 'prev', None)
+        return n
+
     def _init (self, kw):
         if 'payload' in kw:
           self.set_payload(kw['payload'])
